@@ -121,6 +121,12 @@ Theorem C10_update_replaces_in_place : forall (s : fxrates R) u, inv s -> pairs_
               fx_update s u = fx_try_new qs' (Some (hd [] (currencies s))).
 Proof. exact fx_update_known. Qed.
 
+(* ... and precisely: every quote is replaced by the LAST submitted quote with its pair (upd_quote),
+   the others stay; the object is then rebuilt from that list with the same base *)
+Theorem C10_latest_quotes : forall cs (s : fxrates R) u, hist_ok cs s -> pairs_known (fx_rates s) u ->
+  fx_update s u = fx_try_new (map (upd_quote u) (fx_rates s)) (Some (hd [] (currencies s))).
+Proof. exact update_latest. Qed.
+
 Theorem C10_unknown_pair_refused : forall (s : fxrates R) u q,
   In q u -> (forall x, In x (fx_rates s) -> pair x <> pair q) -> fx_step s (OpUpdate u) = (s, Err).
 Proof. exact unknown_pair_refused. Qed.
